@@ -206,6 +206,9 @@ impl<T: DictionaryAccess> MorphemeList<T> {
             input.ch_idx(query.len())
         };
 
+        // the accessors of the forms fall back to the surface: load what the requested fields need,
+        // as StatefulTokenizer::set_subset does
+        let subset = subset.normalize();
         let mut result = 0;
         let lex = self.dict.lexicon();
         for entry in lex.lookup(query.as_bytes(), 0) {
